@@ -140,13 +140,7 @@ def generate(src):
              'datetime.now': h_now, 'timedelta': h_timedelta, 'asyncio.sleep': h_sleep, '@for': h_for})
     ex.inline_scope = (src, REL, None)
     st = State(); st.env = {'scheduler': fresh('scheduler'), 'loop': fresh('loop'), 'running_schedules': fresh('running')}
-    # locals bound before the loop (counters, bookkeeping containers) that the contract does not name: at the head of an arbitrary iteration their
-    # value is arbitrary - an unconstrained integer for a local initialised with an int literal, an opaque value otherwise
-    for pre_ in loop_fn.body[:loop_fn.body.index(while_node)]:
-        tg = pre_.targets[0] if isinstance(pre_, ast.Assign) and len(pre_.targets) == 1 else (pre_.target if isinstance(pre_, ast.AnnAssign) else None)
-        if isinstance(tg, ast.Name) and tg.id not in st.env:
-            v_ = getattr(pre_, 'value', None)
-            st.env[tg.id] = PyInt(fresh(tg.id, IntSort())) if isinstance(v_, ast.Constant) and isinstance(v_.value, int) and not isinstance(v_.value, bool) else fresh(tg.id)
+    bind_prelude_locals(st.env, loop_fn.body[:loop_fn.body.index(while_node)])          # counters / bookkeeping containers the contract does not name
     st.pc += [NS >= 0]; st.facts.append(ForAll([s_], ntasks(s_) >= 0))
     st.ghost = dict(n=IntVal(0), os=K(IntSort(), IntVal(0)), ot=K(IntSort(), IntVal(0)), od=K(IntSort(), Val.none), pos=Function('pos0', IntSort(), IntSort(), IntSort()), last_now=IntVal(0), last_eval=IntVal(0), listed_at=IntVal(0), base=None, sub=None, reads=[], sleeps=0, slept=None)
     exits = collections.Counter()
